@@ -148,6 +148,7 @@ type TypeSpec struct {
 	Final    []string
 	FinalTags []string
 	FinalDecls []FinalDecl
+	Frozen   []FinalDecl // frozen[TAGS] except a, b: every field of the struct (also ones added later) is final, except the listed ones
 	LockInvs []LockInv // monitor invariants: assumed after acquiring the lock, checked before releasing it
 	Transient []FinalDecl // map fields: an entry a function inserts is gone again when that function returns
 	Inits    []string // functions that run before the object is shared: exempt from final/guarded checks, no establishment obligation
@@ -652,7 +653,7 @@ var clauseKeywords = map[string]bool{
 	"pred": true, "fun": true, "lemma": true, "ghost": true, "func": true, "extern": true, "type": true,
 	"callspec": true, "requires": true, "ensures": true, "modifies": true, "pure": true, "function": true, "inline": true,
 	"trusted": true, "loop": true, "before": true, "sweep": true, "guarded": true, "final": true, "atomic": true,
-	"confined": true, "transient": true, "lockinv": true, "private": true, "owns": true, "init": true, "holds": true, "helper": true, "counted": true, "records": true, "sweepscope": true, "nosweep": true, "waive": true, "callers-need-contract": true, "callers-checked": true, "hb-by-channel": true, "invariant": true, "ctor": true, "params": true, "fresh": true, "end": true,
+	"confined": true, "frozen": true, "transient": true, "lockinv": true, "private": true, "owns": true, "init": true, "holds": true, "helper": true, "counted": true, "records": true, "sweepscope": true, "nosweep": true, "waive": true, "callers-need-contract": true, "callers-checked": true, "hb-by-channel": true, "invariant": true, "ctor": true, "params": true, "fresh": true, "end": true,
 }
 
 type rawClause struct {
@@ -1095,7 +1096,7 @@ func parseSpecFile(path string, pkgPath string) (*SpecFile, error) {
 				return nil, err
 			}
 			curF.Before = append(curF.Before, &CallAssert{callee, ord, c})
-		case "guarded", "final", "transient", "lockinv", "atomic", "confined", "hb-by-channel", "ctor", "invariant", "private", "owns", "init":
+		case "guarded", "final", "frozen", "transient", "lockinv", "atomic", "confined", "hb-by-channel", "ctor", "invariant", "private", "owns", "init":
 			if curT == nil {
 				return fail(fmt.Errorf("%s outside type", kw))
 			}
@@ -1132,6 +1133,14 @@ func parseSpecFile(path string, pkgPath string) (*SpecFile, error) {
 					return nil, err
 				}
 				curT.LockInvs = append(curT.LockInvs, LockInv{Lock: strings.TrimSpace(body[:k]), C: c})
+			case "frozen":
+				tags, _, body := parseTags(rest)
+				body = strings.TrimSpace(body)
+				var except []string
+				if strings.HasPrefix(body, "except") {
+					except = splitNames(strings.TrimPrefix(body, "except"))
+				}
+				curT.Frozen = append(curT.Frozen, FinalDecl{Tags: tags, Except: except})
 			case "transient":
 				tags, _, body := parseTags(rest)
 				var except []string
